@@ -73,7 +73,12 @@ impl OptionalDuration {
     /// Convenience method to create an `OptionalDuration` of the given number of seconds
     #[must_use]
     pub const fn from_secs(duration: u64) -> Self {
-        Self(Some(Duration::from_secs(duration)))
+        // Zero means "none", as in the conversions from `Duration` and from a string
+        if duration == 0 {
+            Self::NONE
+        } else {
+            Self(Some(Duration::from_secs(duration)))
+        }
     }
 
     /// Whether the duration is finite
